@@ -18,10 +18,25 @@ Theorem C06_refused_when_new_directories_escape : forall c f r rest w cwd bl cwd
   chdir (w_fs w) (pf_dir f) = Some cwd1 ->
   generate (c_mode c) f r = inl np -> ppath_eqb np (pf_rel f) = false ->
   contained (c_var c) (w_fs w) f np = Some true ->
+  dest_parent_test (c_var c) (w_fs w) f np = Some true ->
   parents_contained (w_fs w) f np = Some false ->
   first_pass c ((f, r) :: rest) w cwd bl = (w, cwd1, bl, Some ExInvalidDest).
 Proof. exact refused_when_new_directories_escape. Qed.
 Print Assumptions C06_refused_when_new_directories_escape.
+
+(* ... and when the directory the destination entry itself lives in (the generated path without its last
+   component, resolved) lies outside, although the destination resolves inside: its last component is then a
+   symbolic link pointing inwards, which rename(2) would replace, not follow (F34, fixed).
+   [dest_parent_test v] is [dest_parent_contained] for the current code and absent ([Some true]) before the fix *)
+Theorem C06_refused_when_destination_directory_outside : forall c f r rest w cwd bl cwd1 np,
+  chdir (w_fs w) (pf_dir f) = Some cwd1 ->
+  generate (c_mode c) f r = inl np -> ppath_eqb np (pf_rel f) = false ->
+  contained (c_var c) (w_fs w) f np = Some true ->
+  v_dest_parent_containment (c_var c) = true ->
+  dest_parent_contained (w_fs w) f np = Some false ->
+  first_pass c ((f, r) :: rest) w cwd bl = (w, cwd1, bl, Some ExInvalidDest).
+Proof. exact refused_when_destination_directory_outside. Qed.
+Print Assumptions C06_refused_when_destination_directory_outside.
 
 (* ... and when the file itself really lives outside its input directory: it was reached through a symbolic
    link to a directory that leaves the input directory (recursive gathering follows such links).  Whatever
@@ -30,6 +45,7 @@ Theorem C06_refused_when_source_outside : forall c f r rest w cwd bl cwd1 np,
   chdir (w_fs w) (pf_dir f) = Some cwd1 ->
   generate (c_mode c) f r = inl np -> ppath_eqb np (pf_rel f) = false ->
   contained (c_var c) (w_fs w) f np = Some true ->
+  dest_parent_test (c_var c) (w_fs w) f np = Some true ->
   parents_contained (w_fs w) f np = Some true ->
   source_contained (w_fs w) f = Some false ->
   first_pass c ((f, r) :: rest) w cwd bl = (w, cwd1, bl, Some ExInvalidDest).
@@ -40,12 +56,12 @@ Theorem C06_refusal_is_status_1 : status_of ExInvalidDest = 1%Z.
 Proof. exact invalid_dest_is_status_1. Qed.
 Print Assumptions C06_refusal_is_status_1.
 
-(* the renamer is reached for a file only after all three containment tests succeeded *)
+(* the renamer is reached for a file only after all four containment tests succeeded *)
 Theorem C06_renamer_reached_only_inside : forall c f r rest w cwd bl np cwd1,
   chdir (w_fs w) (pf_dir f) = Some cwd1 ->
   generate (c_mode c) f r = inl np -> ppath_eqb np (pf_rel f) = false ->
-  (contained (c_var c) (w_fs w) f np = Some true /\ parents_contained (w_fs w) f np = Some true /\
-   source_contained (w_fs w) f = Some true) \/
+  (contained (c_var c) (w_fs w) f np = Some true /\ dest_parent_test (c_var c) (w_fs w) f np = Some true /\
+   parents_contained (w_fs w) f np = Some true /\ source_contained (w_fs w) f = Some true) \/
   (exists e, first_pass c ((f, r) :: rest) w cwd bl = (w, cwd1, bl, Some e)).
 Proof. exact renamer_reached_only_inside. Qed.
 Print Assumptions C06_renamer_reached_only_inside.
@@ -434,23 +450,20 @@ Example C06_deferred_rename_is_not_retested :
 Proof. exact swap_run. Qed.
 
 (* ---------- every conflict strategy: override, and the manual prompt with "override" and "custom path" ---------------- *)
-From Tempren Require Import Pipe.ConfinedOverride.
+From Tempren Require Import Pipe.DestParent Pipe.ConfinedOverride.
 
 (* C06_run_confined without [no_override]: Stop, Ignore, Override, Manual with any answers; every mode, dry or real, any
    fault.  With override rename(2) REPLACES the destination: the entry there is removed, the source entry is re-keyed to
    it -- both keys at or below an input directory.  Name and directory mode need nothing more (the renamer insists on
-   the source's parent, also for a custom path typed at the prompt).  Path mode needs two things, and only in the
-   situations named:
-   - when the configuration can override ([overriding c]: --conflict-strategy override, or manual with an "override"
-     answer): every symbolic link of the initial tree lies at or below an input directory.  Path.resolve() in the
-     containment test follows a link in the last component, rename(2) replaces the link itself
-     ([C06_override_link_destination_escapes]);
+   the source's parent, also for a custom path typed at the prompt).  In path mode the key of the entry that is
+   replaced is realpath(generated path without its last component) ++ [last component] (rename(2) does not follow a
+   symbolic link in the last component): below the input directory by the test on the directory of the destination
+   entry.  Before the repair of F34 that test did not exist and the theorem needed "every symbolic link of the initial
+   tree lies at or below an input directory" ([C06_override_link_destination_escapes]).  Path mode needs one thing:
    - at the manual prompt no "custom path" answer: a path typed there reaches the mover untested
      ([C06_custom_path_escapes_refuted]). *)
 Theorem C06_run_confined_any_strategy : forall c plan cwd s,
   c_var c = fixed -> WF s ->
-  (c_mode c = MPath -> overriding c ->
-   forall k i t, In (k, NLink i t) s -> exists f r, In (f, r) plan /\ is_prefix_path (pf_dir f) k = true) ->
   (c_mode c = MPath -> c_strategy c = Manual -> Forall (fun a => parse_answer a <> ACustom) (c_answers c)) ->
   (forall f r, In (f, r) plan -> chdir s (pf_dir f) = Some (pf_dir f)) ->
   (forall f r f' r', In (f, r) plan -> In (f', r') plan ->
@@ -465,8 +478,6 @@ Print Assumptions C06_run_confined_any_strategy.
 (* ... and the same for every intermediate state *)
 Theorem C06_every_state_confined_any_strategy : forall c plan cwd s,
   c_var c = fixed -> WF s ->
-  (c_mode c = MPath -> overriding c ->
-   forall k i t, In (k, NLink i t) s -> exists f r, In (f, r) plan /\ is_prefix_path (pf_dir f) k = true) ->
   (c_mode c = MPath -> c_strategy c = Manual -> Forall (fun a => parse_answer a <> ACustom) (c_answers c)) ->
   (forall f r, In (f, r) plan -> chdir s (pf_dir f) = Some (pf_dir f)) ->
   (forall f r f' r', In (f, r) plan -> In (f', r') plan ->
@@ -479,11 +490,9 @@ Proof. exact every_state_confined_any_strategy. Qed.
 Print Assumptions C06_every_state_confined_any_strategy.
 
 (* a condition on the initial tree and the plan alone ([plan_static]: no symbolic link at or below an input directory;
-   with the hypothesis for path mode with override this leaves no symbolic link at all there) *)
+   symbolic links elsewhere, pointing anywhere, are allowed) *)
 Theorem C06_run_confined_static_any_strategy : forall c plan cwd s,
   c_var c = fixed -> WF s -> plan_static plan s ->
-  (c_mode c = MPath -> overriding c ->
-   forall k i t, In (k, NLink i t) s -> exists f r, In (f, r) plan /\ is_prefix_path (pf_dir f) k = true) ->
   (c_mode c = MPath -> c_strategy c = Manual -> Forall (fun a => parse_answer a <> ACustom) (c_answers c)) ->
   forall h, In h (r_final (run c plan cwd s) :: r_states (run c plan cwd s)) -> forall k n,
     (In (k, n) h /\ ~ In (k, n) s) \/ (In (k, n) s /\ ~ In (k, n) h) ->
@@ -494,7 +503,7 @@ Print Assumptions C06_run_confined_static_any_strategy.
 (* the states form a chain of steps: a new directory, a re-keying, a rename of an entry onto itself, or a replacing
    rename (removal of the entry at the destination key combined with the re-keying) *)
 Theorem C06_run_is_chain_any_strategy : forall c plan cwd s,
-  c_var c = fixed -> WF s -> plan_static plan s -> links_inside c plan s -> no_custom_in_path_mode c ->
+  c_var c = fixed -> WF s -> plan_static plan s -> no_custom_in_path_mode c ->
   exists l, r_states (run c plan cwd s) = rev l /\ r_final (run c plan cwd s) = hd s l /\ chain2 (plan_dirs plan) s l.
 Proof. exact run_is_chain_any_strategy. Qed.
 Print Assumptions C06_run_is_chain_any_strategy.
@@ -522,9 +531,9 @@ Example C06_override_run_example :
    [(CRename, COk)]).
 Proof. exact override_run_applies. Qed.
 
-(* ... the same in path mode (no symbolic link in the tree) *)
+(* ... the same in path mode *)
 Example C06_override_path_mode_example :
-  WF po_fs /\ plan_static co_plan po_fs /\ links_inside (co_cfg MPath Override []) co_plan po_fs /\
+  WF po_fs /\ plan_static co_plan po_fs /\
   no_custom_in_path_mode (co_cfg MPath Override []) /\
   (let r := run (co_cfg MPath Override []) co_plan [] po_fs in (r_status r, r_final r, r_calls r)) =
   (0%Z, [([n_in], NDir); ([n_in; n_b], NFile 1); ([cr_out], NDir)], [(CMkdir, CErr); (CMove, COk)]).
@@ -552,16 +561,45 @@ Example C06_custom_path_escapes_refuted :
   ~ In ([[120]], NFile 1) cr_fs /\ is_prefix_path [n_in] [[120]] = false.
 Proof. exact custom_path_escapes_refuted. Qed.
 
-(* "every symbolic link at or below an input directory" cannot be dropped in path mode with override: the generated
-   path "../out/l" names a link outside /in that points into /in; the containment test (Path.resolve()) accepts it,
-   override replaces the link /out/l by the file, status 0 *)
+(* Finding F34 (fixed), the code BEFORE the repair ([pre_f34]: the current code without the test on the directory of
+   the destination entry): in path mode with override the generated path "../out/l" names a link outside /in that
+   points into /in; the containment test (Path.resolve()) accepts it, override replaces the link /out/l by the file,
+   status 0 *)
 Example C06_override_link_destination_escapes :
   WF lk_fs /\ plan_static lk_plan lk_fs /\
-  contained fixed lk_fs (cr_file [n_a]) (parse_path lk_dst) = Some true /\
-  (let r := run (co_cfg MPath Override []) lk_plan [] lk_fs in (r_status r, r_final r, r_calls r)) =
+  contained pre_f34 lk_fs (cr_file [n_a]) (parse_path lk_dst) = Some true /\
+  (let r := run (co_cfg_v pre_f34 MPath Override []) lk_plan [] lk_fs in (r_status r, r_final r, r_calls r)) =
   (0%Z,
    [([n_in], NDir); ([cr_out; cr_l], NFile 1); ([cr_out], NDir)],
    [(CMkdir, CErr); (CMove, COk)]) /\
   is_prefix_path [n_in] [cr_out; cr_l] = false /\
-  (let r := run (co_cfg MPath Stop []) lk_plan [] lk_fs in (r_status r, r_final r, r_calls r)) = (1%Z, lk_fs, []).
+  (let r := run (co_cfg_v pre_f34 MPath Stop []) lk_plan [] lk_fs in (r_status r, r_final r, r_calls r)) = (1%Z, lk_fs, []).
 Proof. exact override_link_destination_escapes. Qed.
+
+(* ... and the current code on the same tree and plan: [contained] still says yes, the directory of the destination
+   entry (/out) is outside: InvalidDestinationError, status 1, no call, no report line, the tree untouched *)
+Example C06_override_link_destination_refused :
+  contained fixed lk_fs (cr_file [n_a]) (parse_path lk_dst) = Some true /\
+  dest_parent_contained lk_fs (cr_file [n_a]) (parse_path lk_dst) = Some false /\
+  (let r := run (co_cfg MPath Override []) lk_plan [] lk_fs in (r_error r, r_status r, r_final r, r_calls r, r_report r)) =
+  (Some ExInvalidDest, 1%Z, lk_fs, [], []) /\
+  (let r := run (co_cfg MPath Stop []) lk_plan [] lk_fs in (r_error r, r_status r, r_final r, r_calls r, r_report r)) =
+  (Some ExInvalidDest, 1%Z, lk_fs, [], []).
+Proof. exact override_link_destination_refused. Qed.
+
+(* what the new test means, and what it buys: the key of an EXISTING destination entry -- the one a replacing rename
+   removes; rename(2) does not follow a symbolic link in the last component -- lies at or below the input directory *)
+Theorem C06_dest_parent_contained_spec : forall s f np,
+  dest_parent_contained s f np = Some true <->
+  exists a, realpath s [] (dest_parent f np) = Some a /\ exists r, a = pf_dir f ++ r.
+Proof. exact dest_parent_contained_spec. Qed.
+Print Assumptions C06_dest_parent_contained_spec.
+
+Theorem C06_existing_destination_key_inside : forall s f np dp dn,
+  chdir s (pf_dir f) = Some (pf_dir f) ->
+  dest_parent_contained s f np = Some true ->
+  bad_last (to_upath np) = false ->
+  resolve s (pf_dir f) (to_upath np) false = WFound dp dn ->
+  is_prefix_path (pf_dir f) dp = true.
+Proof. exact dest_key_inside. Qed.
+Print Assumptions C06_existing_destination_key_inside.
